@@ -6,6 +6,7 @@ import (
 	"strconv"
 	"strings"
 	"sync"
+	"time"
 
 	"github.com/influxdata/kapacitor/edge"
 	"github.com/influxdata/kapacitor/models"
@@ -15,20 +16,52 @@ import (
 	"verifharness/kit"
 )
 
-// recSvc is a UDF service offering `@sink()` (stream → stream) and `@bsink()` (batch → batch).
+// recSvc is a UDF service offering `@sink()` (stream → stream) and `@bsink()` (batch → batch), and their LATE variants
+// `@lsink()` / `@lbsink()`.
 // Every sink keeps, per received message,
-//   - the message OBJECT itself (rendered only after the task has ended: the "final" view; an in-place
-//     write by a sibling branch to a map shared with this message is visible in it), and
+//   - the message OBJECT itself (rendered only after the task has ended: the "final" view — what a consumer that reads
+//     the message as late as possible finds in it; an in-place write by a sibling branch to a map shared with this
+//     message, or by the PRODUCER to a slice it has already handed on, is visible in it), and
 //   - a rendering taken at the moment of ingestion (the "snap" view, a private copy).
+//
+// The `sink` lines the driver judges are the final views: nothing is copied when a message is emitted or received.
+// A late sink takes nothing off its edge until the gate is opened (c10.go: after all points are written, the inputs are
+// closed and all other sinks are done), so its producer has emitted everything it will ever emit before the first
+// message is consumed; its snap view is therefore already a late reading.
 type recSvc struct {
 	mu    sync.Mutex
 	msgs  map[string][]edge.Message
 	snaps map[string][]string
 	made  []string // node names of the sinks, as created
+	gate  chan struct{}
+	gone  sync.Once
+	early []*sinkUDF // the sinks that are not late
 }
 
 func newRecSvc() *recSvc {
-	return &recSvc{msgs: map[string][]edge.Message{}, snaps: map[string][]string{}}
+	return &recSvc{msgs: map[string][]edge.Message{}, snaps: map[string][]string{}, gate: make(chan struct{})}
+}
+
+func (s *recSvc) openGate() { s.gone.Do(func() { close(s.gate) }) }
+
+// waitOthersDone returns when every sink that is not late has been closed by its UDF node (its parent has emitted
+// everything and the sink has recorded it), or after the timeout (a failing task).
+func (s *recSvc) waitOthersDone(d time.Duration) {
+	s.mu.Lock()
+	early := append([]*sinkUDF(nil), s.early...)
+	late := len(s.made) - len(early)
+	s.mu.Unlock()
+	if late == 0 {
+		return
+	}
+	t := time.After(d)
+	for _, u := range early {
+		select {
+		case <-u.done:
+		case <-t:
+			return
+		}
+	}
 }
 
 func (s *recSvc) add(key string, m edge.Message) {
@@ -39,12 +72,12 @@ func (s *recSvc) add(key string, m edge.Message) {
 	s.mu.Unlock()
 }
 
-func (s *recSvc) List() []string { return []string{"sink", "bsink"} }
+func (s *recSvc) List() []string { return []string{"sink", "bsink", "lsink", "lbsink"} }
 func (s *recSvc) Info(name string) (udf.Info, bool) {
 	switch name {
-	case "sink":
+	case "sink", "lsink":
 		return udf.Info{Wants: agent.EdgeType_STREAM, Provides: agent.EdgeType_STREAM, Options: map[string]*agent.OptionInfo{}}, true
-	case "bsink":
+	case "bsink", "lbsink":
 		return udf.Info{Wants: agent.EdgeType_BATCH, Provides: agent.EdgeType_BATCH, Options: map[string]*agent.OptionInfo{}}, true
 	}
 	return udf.Info{}, false
@@ -54,10 +87,15 @@ func (s *recSvc) Create(name, taskID, nodeID string, d udf.Diagnostic, abortCall
 	if !ok {
 		return nil, fmt.Errorf("unknown udf %s", name)
 	}
+	u := &sinkUDF{svc: s, key: nodeID, info: info, in: make(chan edge.Message), out: make(chan edge.Message), done: make(chan struct{}), abort: abortCallback,
+		late: strings.HasPrefix(name, "l")}
 	s.mu.Lock()
 	s.made = append(s.made, nodeID)
+	if !u.late {
+		s.early = append(s.early, u)
+	}
 	s.mu.Unlock()
-	return &sinkUDF{svc: s, key: nodeID, info: info, in: make(chan edge.Message), out: make(chan edge.Message), done: make(chan struct{}), abort: abortCallback}, nil
+	return u, nil
 }
 
 type sinkUDF struct {
@@ -70,6 +108,7 @@ type sinkUDF struct {
 	abort func()
 	once  sync.Once
 	abrt  chan struct{}
+	late  bool
 }
 
 func (u *sinkUDF) Open() error {
@@ -77,6 +116,13 @@ func (u *sinkUDF) Open() error {
 	go func() {
 		defer close(u.done)
 		defer close(u.out)
+		if u.late {
+			select {
+			case <-u.svc.gate:
+			case <-u.abrt:
+				return
+			}
+		}
 		for m := range u.in {
 			u.svc.add(u.key, m)
 			select {
